@@ -256,7 +256,7 @@ REGISTRY = {
     },
     "C11": {
         "rules": [tebd.rule_id_cache, tebd.rule_trotter_coeffs, tebd.rule_time_bookkeeping, tebd.rule_term_sharing,
-                  tebd.rule_memo_key_complete, tebd.rule_default_orientation, tebd.rule_gate_orientation],
+                  tebd.rule_memo_key_complete, tebd.rule_default_orientation, tebd.rule_gate_orientation, tebd.rule_renorm_at_centre],
         "explanation": (
             "static (cache-key/lifetime rule, constant folding, statement-order rules): decides that id()-keyed "
             "operator caches stay coherent with the terms they key, that the product-formula coefficients satisfy "
